@@ -222,6 +222,8 @@ type VerifNDPFake struct {
 	Joined map[string]bool
 	Errors []string // group operations the kernel would have refused
 	Closed bool
+	FailJoins   int
+	FailedJoins []string
 }
 
 var (
@@ -366,12 +368,47 @@ func verifNDPJoinGroup(n *ndpResponder, group net.IP) error {
 	}
 	f.mu.Lock()
 	defer f.mu.Unlock()
+	if f.FailJoins > 0 {
+		// environment fault: the kernel refuses this join (out of memberships, interface flapping ...)
+		f.FailJoins--
+		f.FailedJoins = append(f.FailedJoins, group.String())
+		return fmt.Errorf("verif: injected join failure")
+	}
 	if f.Joined[group.String()] {
 		f.Errors = append(f.Errors, "join of a group already joined: "+group.String())
 		return fmt.Errorf("address already in use")
 	}
 	f.Joined[group.String()] = true
 	return nil
+}
+
+// FailNextJoin makes the next JoinGroup on this connection fail.
+func (f *VerifNDPFake) FailNextJoin() {
+	f.mu.Lock()
+	f.FailJoins++
+	f.mu.Unlock()
+}
+
+// TakeFailedJoins returns (and forgets) the groups whose join was refused.
+func (f *VerifNDPFake) TakeFailedJoins() []string {
+	f.mu.Lock()
+	defer f.mu.Unlock()
+	out := f.FailedJoins
+	f.FailedJoins = nil
+	return out
+}
+
+// DropGroupErrorsFor forgets recorded group-operation errors that concern group g.
+func (f *VerifNDPFake) DropGroupErrorsFor(g string) {
+	f.mu.Lock()
+	defer f.mu.Unlock()
+	var keep []string
+	for _, e := range f.Errors {
+		if !strings.HasSuffix(e, " "+g) {
+			keep = append(keep, e)
+		}
+	}
+	f.Errors = keep
 }
 
 func verifNDPLeaveGroup(n *ndpResponder, group net.IP) error {
